@@ -38,7 +38,9 @@ def modelObs (pre : List Int) (p : Prog) :
   let s0 := pre.foldl enter ({ now := 0 } : TS)
   let r := run true p s0
   (codeOfRes r.1, r.2.1.now,
-   r.2.2.map (fun e => match e with | .exit d res x t => (d, codeOfRes res, x, t)),
+   r.2.2.map (fun e => match e with
+     | .exit d res x t => (d, codeOfRes res, x, t)
+     | .gexit res left t => (t, 100 + codeOfRes res, left != 0, t)),
    r.2.1.armed.toList,
    (run true (wrapPrefix pre p) { now := 0 }).2.1.armed.isSome)
 
